@@ -6,8 +6,9 @@ made inside it), pop / popleft / peek / peekleft (pull / peek on the right
 side, ENOVAL -> IndexError), clear, __len__, the maxlen setter's trim loop,
 construction with eviction policy 'none' (Deque.__init__, FanoutCache.deque),
 persistence state (C18).  The sequence semantics of push/pull/peek themselves
-are C10.  _index (positional access), rotate, reverse, remove, count,
-comparisons and iteration are covered by the bounded native stand-in only
+are C10.  Also under contract (see the section "whole-sequence operations" below): _index,
+iteration both ways, remove, rotate, extend/extendleft/+=, copy, count and the six comparisons.
+reverse() and the persistence round trips are covered by the bounded native stand-in only
 (random histories against collections.deque over the full index span).
 """
 import z3
@@ -182,15 +183,24 @@ def misc():
 def tasks(tier):
     return [('contracts.c11', 'appends', ()), ('contracts.c11', 'pops', ()), ('contracts.c11', 'misc', ()),
             ('contracts.c11', 'index_task', ()),
+            ('contracts.c11', 'iter_ops', ()), ('contracts.c11', 'remove_op', ()), ('contracts.c11', 'rotate_op', ()),
+            ('contracts.c11', 'extend_ops', ()), ('contracts.c11', 'compare_ops', ()), ('contracts.c11', 'count_op', ()),
             ('contracts.iteration', 'iterkeys_task', ('C11', False)), ('contracts.iteration', 'iterkeys_task', ('C11', True)),
             ('contracts.traces', 'transact_block', ('C11',))]     # append at maxlen = push + trim in one block
 
 
 def meta(results, tier):
     return {'functions': {'verified_bodies': ['diskcache.persistent.Deque.append/appendleft/pop/popleft/peek/peekleft/clear/__len__/__init__',
+                                              'diskcache.persistent.Deque._index/__getitem__/__setitem__/__delitem__',
+                                              'diskcache.persistent.Deque.__iter__/__reversed__/remove/rotate/extend/extendleft/__iadd__/copy/count',
+                                              'diskcache.persistent._make_compare.compare (__eq__/__ne__/__lt__/__le__/__gt__/__ge__)',
                                               'diskcache.fanout.FanoutCache.deque'],
                           'assumed_contracts': ['Cache.push/pull/peek/transact/__len__/clear through Recorder (C10, C06, C03)']},
-            'assumptions': ['positional access, rotate, reverse, remove, count, comparisons, iteration: bounded stand-in only',
+            'assumptions': ['reverse() (builds a temporary Deque on disk), repr, pickling round trip: bounded stand-in only',
+                            'abstract view: the deque is the sequence of Cache[key] over the keys in sorted order; == on opaque items is read as '
+                            'equality of the abstract values; comparison operators are proved for integer items (a faithful instance of totally '
+                            'ordered values with a consistent ==)',
+                            'remove(): single client (an item vanishing between the walk and the read is skipped by the code; not in the invariant)',
                             'existing length <= maxlen at open (reopening with a smaller maxlen is not trimmed by __init__)',
                             'A-SQL-iso for the atomic section of append'],
             'explanation': 'delegate and atomic-section obligations for the queue-end operations of Deque'}
@@ -274,4 +284,543 @@ def index_task():
             if meth == '__getitem__':
                 okv = p.value is cs[0]['ret']
             out.append(R(base + '.passes_value_through', okv, meth, p, 'value / result not passed through'))
+    return out
+
+
+# ------------------------------------------------------------------ whole-sequence operations
+# Abstract view: the deque is the sequence  S[i] = VALOF(KEYAT(i)), 0 <= i < n  (keys in sorted order;
+# C10: push generates keys in queue order, C03/iterkeys: sorted-order iteration).  Cache[key] returns
+# VALOF(key), or raises KeyError when another client removed the item meanwhile.
+VALOF = z3.Function('deque_value_of', OTHER, OTHER)
+
+
+def EQV(a, b):
+    """value == item: on opaque objects the engine reads == as equality of the abstract values."""
+    return a == b
+
+
+def seq_outcomes(st, n, keyerror=True):
+    from pyvc.loops import SymSeq
+
+    def keys(reverse):
+        elem = (lambda i: Opaque('other', KEYAT(n - 1 - i))) if reverse else (lambda i: Opaque('other', KEYAT(i)))
+        return SymSeq(n, elem, tag='keys')
+
+    def outcomes(nm, b):
+        if nm == '__len__':
+            return [('return', lambda it2, b2, k: SV('int', n))]
+        if nm == 'iterkeys':
+            return [('return', lambda it2, b2, k: keys(bool(b2.get('reverse'))))]
+        if nm == '__getitem__':
+            outs = [('return', lambda it2, b2, k: Opaque('other', VALOF(b2['key'].t)))]
+            return outs + (['KeyError'] if keyerror else [])
+        if nm == '__delitem__':
+            return ['return'] + (['KeyError'] if keyerror else [])
+        return ['return']
+    return outcomes
+
+
+def install_seq_loops(ctx):
+    def remember(it, fr, i):
+        it.st.ghost['iter_i'] = i
+        it.st.effect('ITER', i=i)
+    TRUE = lambda it, fr, i: z3.BoolVal(True)
+    for q in ('__iter__', '__reversed__'):
+        ctx.loop_invariants[('diskcache.persistent.Deque.' + q, 0)] = LoopSpec('C11.%s.loop' % q, TRUE, on_bind=remember)
+
+    def none_before(it, fr, i):
+        j = z3.Int('j_rm')
+        v = it.st.ghost['value'].t
+        return z3.ForAll([j], z3.Implies(z3.And(j >= 0, j < i), z3.Not(EQV(v, VALOF(KEYAT(j))))))
+    ctx.loop_invariants[('diskcache.persistent.Deque.remove', 0)] = LoopSpec('C11.remove.loop', none_before, on_bind=remember)
+
+
+def iter_ops():
+    """iter(deque) / reversed(deque): the values of the keys in sorted order (resp. reversed), each read
+    once, items that vanished meanwhile skipped."""
+    ctx = cctx()
+    install_seq_loops(ctx)
+    out = []
+    for meth, reverse in (('__iter__', False), ('__reversed__', True)):
+        def run(st, meth=meth):
+            it = ctx.interp(st)
+            n = st.fresh('n', z3.IntSort())
+            st.assume(n >= 0)
+            dq, cache, ENOVAL, maxlen = mk(ctx, st, seq_outcomes(st, n))
+            st.ghost['n'] = n
+            it.on_yield = lambda it2, f, v: it2.st.effect('YIELD', value=v)
+            return it.call_function(ctx.func('diskcache.persistent.Deque.' + meth), [dq], {}, gen_record=[])
+        npaths = 0
+        for k, p in enumerate(explore(run)):
+            st = p.state
+            tr = st.trace
+            base = 'C11.%s#%d' % (meth, k)
+            for o in st.obligations:
+                out.append(discharge('%s/%s' % (base, o.name), o.kind, o.pc, o.goal, function='Deque.' + meth, path=p.decisions))
+            cs = [e[1] for e in tr if e[0] == 'CALL']
+            ik = [c for c in cs if c['name'] == 'iterkeys']
+            ok = len(ik) == 1 and bool(ik[0]['bound'].get('reverse')) == reverse and cs and cs[0]['name'] == 'iterkeys'
+            out.append(R(base + '.one_sorted_walk_in_direction', ok, meth, p, 'iterkeys calls %r' % [c['bound'] for c in ik]))
+            others = [c['name'] for c in cs if c['name'] not in ('iterkeys', '__getitem__')]
+            out.append(R(base + '.read_only', not others, meth, p, 'calls %r' % others))
+            its = [i for i, e in enumerate(tr) if e[0] == 'ITER']
+            if p.kind == 'cut' and its:
+                npaths += 1
+                seg = tr[its[-1]:]
+                i = st.ghost['iter_i']
+                n = st.ghost['n']
+                pos = (n - 1 - i) if reverse else i
+                gets = [e[1] for e in seg if e[0] == 'CALL' and e[1]['name'] == '__getitem__']
+                ys = [e[1]['value'] for e in seg if e[0] == 'YIELD']
+                if len(gets) != 1:
+                    out.append(R(base + '.step_reads_its_item_once', False, meth, p, '%d reads in one step' % len(gets)))
+                    continue
+                out.append(discharge(base + '.step_reads_its_item_once', 'post', p.pc, gets[0]['bound']['key'].t == KEYAT(pos),
+                                     function='Deque.' + meth, path=p.decisions))
+                if gets[0]['outcome'] == 'raise':
+                    out.append(R(base + '.vanished_item_skipped', not ys, meth, p, 'yields %r for a vanished item' % (ys,)))
+                else:
+                    ok = len(ys) == 1 and isinstance(ys[0], Opaque)
+                    if not ok:
+                        out.append(R(base + '.step_yields_its_value', False, meth, p, 'yields %r' % (ys,)))
+                    else:
+                        out.append(discharge(base + '.step_yields_its_value', 'post', p.pc, ys[0].t == VALOF(KEYAT(pos)),
+                                             function='Deque.' + meth, path=p.decisions))
+            elif p.kind == 'return':
+                npaths += 1
+                ys = [e for e in tr if e[0] == 'YIELD']
+                gets = [c for c in cs if c['name'] == '__getitem__']
+                out.append(R(base + '.nothing_after_the_walk', not ys and not gets, meth, p, 'yields / reads outside the loop'))
+            elif p.kind == 'raise':
+                out.append(R(base + '.no_exception', False, meth, p, 'raises %r' % (p.value,)))
+        if npaths == 0:
+            out.append(Result('C11.%s' % meth, 'vacuity', 'error', detail='no paths'))
+    return out
+
+
+def remove_op():
+    """deque.remove(value): deletes the first item equal to value (one deletion, by its key), ValueError
+    exactly when no item equals value; items that vanish meanwhile are skipped."""
+    ctx = cctx()
+    install_seq_loops(ctx)
+    out = []
+
+    def run(st):
+        it = ctx.interp(st)
+        n = st.fresh('n', z3.IntSort())
+        st.assume(n >= 0)
+        dq, cache, ENOVAL, maxlen = mk(ctx, st, seq_outcomes(st, n, keyerror=False))
+        value = Opaque('other', st.fresh('value', OTHER))
+        st.ghost.update(n=n, value=value)
+        return it.call(it.getattr(dq, 'remove'), [value], {})
+    npaths = 0
+    j = z3.Int('j_rm2')
+    for k, p in enumerate(explore(run)):
+        st = p.state
+        tr = st.trace
+        base = 'C11.remove#%d' % k
+        for o in st.obligations:
+            out.append(discharge('%s/%s' % (base, o.name), o.kind, o.pc, o.goal, function='Deque.remove', path=p.decisions))
+        if p.kind == 'cut':
+            continue
+        npaths += 1
+        n, v = st.ghost['n'], st.ghost['value'].t
+        cs = [e[1] for e in tr if e[0] == 'CALL']
+        dels = [c for c in cs if c['name'] == '__delitem__']
+        others = [c['name'] for c in cs if c['name'] not in ('iterkeys', '__getitem__', '__delitem__', '__len__')]
+        out.append(R(base + '.no_other_mutation', not others, 'remove', p, 'calls %r' % others))
+        if p.kind == 'return':
+            i = st.ghost.get('iter_i')
+            if len(dels) != 1 or i is None:
+                out.append(R(base + '.one_deletion', False, 'remove', p, '%d deletions' % len(dels)))
+                continue
+            first = z3.And(i >= 0, i < n, dels[0]['bound']['key'].t == KEYAT(i), EQV(v, VALOF(KEYAT(i))),
+                           z3.ForAll([j], z3.Implies(z3.And(j >= 0, j < i), z3.Not(EQV(v, VALOF(KEYAT(j)))))))
+            out.append(discharge(base + '.deletes_first_occurrence', 'post', p.pc, first, function='Deque.remove', path=p.decisions))
+        else:
+            ok = p.value.cls == 'ValueError' and not dels
+            out.append(R(base + '.valueerror_without_deletion', ok, 'remove', p, 'raises %r after %d deletions' % (p.value, len(dels))))
+            absent = z3.ForAll([j], z3.Implies(z3.And(j >= 0, j < n), z3.Not(EQV(v, VALOF(KEYAT(j))))))
+            out.append(discharge(base + '.valueerror_only_if_absent', 'post', p.pc, absent, function='Deque.remove', path=p.decisions))
+    if npaths == 0:
+        out.append(Result('C11.remove', 'vacuity', 'error', detail='no paths'))
+    return out
+
+
+# ---- rotate / extend / extendleft / += / copy: each is a loop of end operations whose own contracts
+# ---- are C11.append*/pop* above; here they are summarised by recorded effects
+def install_end_ops(ctx, st_hooks=True):
+    def rec(kind):
+        def hook(it, f, a, k):
+            b = it.bind_args(f, a, k)
+            if kind in ('pop', 'popleft'):
+                if it.st.decide(2) == 1:
+                    it.st.effect('DQ', op=kind, outcome='raise')
+                    from pyvc.engine import raise_py
+                    raise_py('IndexError', 'pop from an empty deque')
+                v = Opaque('other', it.st.fresh('popped', OTHER))
+                it.st.effect('DQ', op=kind, outcome='return', value=v)
+                return v
+            it.st.effect('DQ', op=kind, value=b.get('value'))
+            return None
+        return hook
+    for kind in ('pop', 'popleft', 'append', 'appendleft'):
+        ctx.hooks['diskcache.persistent.Deque.' + kind] = rec(kind)
+
+
+def remove_end_ops(ctx):
+    for kind in ('pop', 'popleft', 'append', 'appendleft'):
+        ctx.hooks.pop('diskcache.persistent.Deque.' + kind, None)
+
+
+def rotate_op():
+    """deque.rotate(steps): |steps| mod len single moves, each one pop at one end followed by an append
+    of that very value at the other end (right rotation for steps >= 0, left otherwise); nothing when
+    empty; TypeError for a non-integer."""
+    ctx = cctx()
+    out = []
+
+    def remember(it, fr, i):
+        it.st.ghost['iter_i'] = i
+        it.st.effect('ITER', i=i)
+    TRUE = lambda it, fr, i: z3.BoolVal(True)
+    ctx.loop_invariants[('diskcache.persistent.Deque.rotate', 0)] = LoopSpec('C11.rotate.right', TRUE, on_bind=remember)
+    ctx.loop_invariants[('diskcache.persistent.Deque.rotate', 1)] = LoopSpec('C11.rotate.left', TRUE, on_bind=remember)
+    install_end_ops(ctx)
+    try:
+        def run(st):
+            it = ctx.interp(st)
+            n = st.fresh('n', z3.IntSort())
+            st.assume(n >= 0)
+
+            def outcomes(nm, b):
+                if nm == '__len__':
+                    return [('return', lambda it2, b2, k: SV('int', n))]
+                return ['return']
+            dq, cache, ENOVAL, maxlen = mk(ctx, st, outcomes)
+            steps = st.fresh_sv('steps', 'int')
+            st.ghost.update(n=n, steps=steps)
+            return it.call(it.getattr(dq, 'rotate'), [steps], {})
+        npaths = 0
+        for k, p in enumerate(explore(run)):
+            st = p.state
+            tr = st.trace
+            base = 'C11.rotate#%d' % k
+            for o in st.obligations:
+                out.append(discharge('%s/%s' % (base, o.name), o.kind, o.pc, o.goal, function='Deque.rotate', path=p.decisions))
+            n, steps = st.ghost['n'], st.ghost['steps'].t
+            dq_ops = [e[1] for e in tr if e[0] == 'DQ']
+            its = [i for i, e in enumerate(tr) if e[0] == 'ITER']
+            cachecalls = [e[1]['name'] for e in tr if e[0] == 'CALL' and e[1]['name'] != '__len__']
+            out.append(R(base + '.only_end_operations', not cachecalls, 'rotate', p, 'direct cache calls %r' % cachecalls))
+            if p.kind == 'raise':
+                out.append(R(base + '.no_exception', False, 'rotate', p, 'raises %r' % (p.value,)))
+                continue
+            npaths += 1
+            if its:
+                # one arbitrary step (cut), or a step that found the deque emptied by someone else (return)
+                seg = [e[1] for e in tr[its[-1]:] if e[0] == 'DQ']
+                i = st.ghost['iter_i']
+                # the number of single moves B is congruent to the requested rotation modulo the length
+                # (the code reduces it first; not reducing it would rotate to the same result)
+                Br, Bl = st.ghost.get('loop_bound:C11.rotate.right'), st.ghost.get('loop_bound:C11.rotate.left')
+                right = z3.And(steps >= 0, Br % n == steps % n) if Br is not None else z3.BoolVal(False)
+                left = z3.And(steps < 0, Bl % n == (-steps) % n) if Bl is not None else z3.BoolVal(False)
+                if len(seg) == 2 and seg[0]['outcome'] == 'return':
+                    pair = (seg[0]['op'], seg[1]['op'])
+                    same = seg[1].get('value') is seg[0]['value']
+                    if pair == ('pop', 'appendleft'):
+                        goal = z3.And(n > 0, right)
+                    elif pair == ('popleft', 'append'):
+                        goal = z3.And(n > 0, left)
+                    else:
+                        goal = None
+                    if goal is None or not same:
+                        out.append(R(base + '.step_moves_one_item', False, 'rotate', p, 'step does %r, same value: %s' % (pair, same)))
+                    else:
+                        out.append(discharge(base + '.step_moves_one_item_in_direction', 'post', p.pc, goal,
+                                             function='Deque.rotate', path=p.decisions))
+                elif len(seg) == 1 and seg[0]['outcome'] == 'raise':
+                    out.append(R(base + '.stops_when_emptied', p.kind == 'return', 'rotate', p, 'after IndexError: %s' % p.kind))
+                else:
+                    out.append(R(base + '.step_moves_one_item', False, 'rotate', p, 'step does %r' % [(d['op'], d.get('outcome')) for d in seg]))
+            else:
+                # no iteration on this path: loop exit or early return
+                Br, Bl = st.ghost.get('loop_bound:C11.rotate.right'), st.ghost.get('loop_bound:C11.rotate.left')
+                if Br is not None or Bl is not None:
+                    goal = z3.And(n > 0, z3.And(steps >= 0, Br % n == steps % n) if Br is not None else
+                                  z3.And(steps < 0, Bl % n == (-steps) % n))
+                    out.append(discharge(base + '.step_count_congruent_to_request', 'post', p.pc, goal,
+                                         function='Deque.rotate', path=p.decisions))
+                else:
+                    out.append(discharge(base + '.no_steps_only_when_empty', 'post', p.pc, n == 0, function='Deque.rotate', path=p.decisions))
+                out.append(R(base + '.nothing_outside_the_steps', not dq_ops, 'rotate', p, 'operations outside the loop: %r' % [d['op'] for d in dq_ops]))
+        if npaths == 0:
+            out.append(Result('C11.rotate', 'vacuity', 'error', detail='no paths'))
+        # non-integer argument
+        def run2(st):
+            it = ctx.interp(st)
+            dq, cache, ENOVAL, maxlen = mk(ctx, st)
+            return it.call(it.getattr(dq, 'rotate'), [st.fresh_sv('steps', 'str')], {})
+        for k, p in enumerate(explore(run2)):
+            ok = p.kind == 'raise' and p.value.cls == 'TypeError' and not [e for e in p.state.trace if e[0] in ('DQ', 'CALL')]
+            out.append(R('C11.rotate.non_integer#%d' % k, ok, 'rotate', p, '%s %r' % (p.kind, p.value)))
+    finally:
+        remove_end_ops(ctx)
+    return out
+
+
+def extend_ops():
+    """extend / extendleft / +=: one append (resp. appendleft) per element of the iterable, in its order,
+    with that element; += returns the deque itself.  copy(): a Deque on the same directory, same maxlen."""
+    from pyvc.loops import SymSeq
+    ctx = cctx()
+    out = []
+    ELEM = z3.Function('extend_elem', z3.IntSort(), OTHER)
+
+    def remember(it, fr, i):
+        it.st.ghost['iter_i'] = i
+        it.st.effect('ITER', i=i)
+    TRUE = lambda it, fr, i: z3.BoolVal(True)
+    ctx.loop_invariants[('diskcache.persistent.Deque.extend', 0)] = LoopSpec('C11.extend.loop', TRUE, on_bind=remember)
+    ctx.loop_invariants[('diskcache.persistent.Deque.extendleft', 0)] = LoopSpec('C11.extendleft.loop', TRUE, on_bind=remember)
+    install_end_ops(ctx)
+    try:
+        for meth, op_ in (('extend', 'append'), ('extendleft', 'appendleft'), ('__iadd__', 'append')):
+            def run(st, meth=meth):
+                it = ctx.interp(st)
+                m = st.fresh('m', z3.IntSort())
+                st.assume(m >= 0)
+                dq, cache, ENOVAL, maxlen = mk(ctx, st)
+                st.ghost.update(m=m, dq=dq)
+                return it.call(it.getattr(dq, meth), [SymSeq(m, lambda i: Opaque('other', ELEM(i)), tag='iterable')], {})
+            npaths = 0
+            for k, p in enumerate(explore(run)):
+                st = p.state
+                tr = st.trace
+                base = 'C11.%s#%d' % (meth, k)
+                for o in st.obligations:
+                    out.append(discharge('%s/%s' % (base, o.name), o.kind, o.pc, o.goal, function='Deque.' + meth, path=p.decisions))
+                cachecalls = [e[1]['name'] for e in tr if e[0] == 'CALL']
+                out.append(R(base + '.only_end_operations', not cachecalls, meth, p, 'direct cache calls %r' % cachecalls))
+                its = [i for i, e in enumerate(tr) if e[0] == 'ITER']
+                if p.kind == 'raise':
+                    out.append(R(base + '.no_exception', False, meth, p, 'raises %r' % (p.value,)))
+                    continue
+                npaths += 1
+                if p.kind == 'cut' and its:
+                    seg = [e[1] for e in tr[its[-1]:] if e[0] == 'DQ']
+                    i = st.ghost['iter_i']
+                    if len(seg) != 1 or seg[0]['op'] != op_ or not isinstance(seg[0].get('value'), Opaque):
+                        out.append(R(base + '.one_%s_per_element' % op_, False, meth, p, 'step does %r' % [(d['op'], d.get('value')) for d in seg]))
+                    else:
+                        out.append(discharge(base + '.one_%s_per_element' % op_, 'post', p.pc, seg[0]['value'].t == ELEM(i),
+                                             function='Deque.' + meth, path=p.decisions))
+                else:
+                    dq_ops = [e[1] for e in tr if e[0] == 'DQ']
+                    ok = not dq_ops and (p.value is st.ghost['dq'] if meth == '__iadd__' else p.value is None)
+                    out.append(R(base + '.nothing_outside_the_loop', ok, meth, p, 'operations %r, returns %r' % ([d['op'] for d in dq_ops], p.value)))
+            if npaths == 0:
+                out.append(Result('C11.%s' % meth, 'vacuity', 'error', detail='no paths'))
+    finally:
+        remove_end_ops(ctx)
+    # copy
+    def hook(it, f, a, k):
+        b = it.bind_args(f, a, k)
+        it.st.effect('NEWDEQUE', bound={x: v for x, v in b.items() if x != 'self'})
+        return None
+    ctx.hooks['diskcache.persistent.Deque.__init__'] = hook
+    try:
+        def run3(st):
+            it = ctx.interp(st)
+            dq, cache, ENOVAL, maxlen = mk(ctx, st, lambda nm, b: ['return'])
+            d = st.fresh_sv('dir', 'str')
+            cache.attrs = {'directory': d} if hasattr(cache, 'attrs') else None
+            st.ghost.update(dq=dq, maxlen=maxlen, cache=cache)
+            return it.call(it.getattr(dq, 'copy'), [], {})
+        for k, p in enumerate(explore(run3)):
+            st = p.state
+            news = [e[1]['bound'] for e in st.trace if e[0] == 'NEWDEQUE']
+            cs = calls(p)
+            dirs = [c for c in cs if c['name'] == 'directory']
+            ok = p.kind == 'return' and len(news) == 1 and news[0].get('maxlen') is st.ghost['maxlen'] and \
+                len(dirs) == 1 and news[0].get('directory') is dirs[0]['ret'] and \
+                isinstance(p.value, Obj) and p.value is not st.ghost['dq'] and p.value.cls is st.ghost['dq'].cls
+            out.append(R('C11.copy#%d.same_directory_and_maxlen' % k, ok, 'copy', p,
+                         'constructs %r from directory reads %r (%s %r)' % (news, [c['name'] for c in cs], p.kind, p.value)))
+    finally:
+        ctx.hooks.pop('diskcache.persistent.Deque.__init__', None)
+    return out
+
+
+def compare_ops():
+    """deque <op> sequence for the six comparison operators: the lexicographic comparison of the item
+    sequences (elements taken as integers: a faithful instance of totally ordered values with a
+    consistent ==), NotImplemented for a non-sequence.  iter(deque) enters by its contract
+    (C11.__iter__.*): the values in sorted key order."""
+    from pyvc.loops import SymSeq
+    ctx = cctx()
+    out = []
+    SI = z3.Function('deque_item', z3.IntSort(), z3.IntSort())
+    TI = z3.Function('that_item', z3.IntSort(), z3.IntSort())
+    j = z3.Int('j_cmp')
+    d = z3.Int('d_cmp')
+
+    def remember(it, fr, i):
+        it.st.ghost['iter_i'] = i
+
+    def inv(it, fr, i):
+        return z3.ForAll([j], z3.Implies(z3.And(j >= 0, j < i), SI(j) == TI(j)))
+    ctx.loop_invariants[('diskcache.persistent._make_compare.<locals>.compare', 0)] = LoopSpec('C11.compare.loop', inv, on_bind=remember)
+
+    def iter_contract(it, f, a, k):
+        n = it.st.ghost['n']
+        it.st.effect('ITERSELF')
+        return SymSeq(n, lambda i: SV('int', SI(i)), tag='deque items')
+    ctx.hooks['diskcache.persistent.Deque.__iter__'] = iter_contract
+    ops = {'__eq__': lambda a, b: a == b, '__ne__': lambda a, b: a != b, '__lt__': lambda a, b: a < b,
+           '__le__': lambda a, b: a <= b, '__gt__': lambda a, b: a > b, '__ge__': lambda a, b: a >= b}
+    try:
+        for name, rel in ops.items():
+            def run(st, name=name):
+                it = ctx.interp(st)
+                n = st.fresh('n', z3.IntSort())
+                m = st.fresh('m', z3.IntSort())
+                st.assume(z3.And(n >= 0, m >= 0))
+
+                def outcomes(nm, b):
+                    if nm == '__len__':
+                        return [('return', lambda it2, b2, k: SV('int', n))]
+                    return ['return']
+                dq, cache, ENOVAL, maxlen = mk(ctx, st, outcomes)
+                st.ghost.update(n=n, m=m)
+                that = SymSeq(m, lambda i: SV('int', TI(i)), kind='list', tag='that')
+                return it.call(it.getattr(dq, name), [that], {})
+            npaths = 0
+            for k, p in enumerate(explore(run)):
+                st = p.state
+                base = 'C11.%s#%d' % (name, k)
+                for o in st.obligations:
+                    out.append(discharge('%s/%s' % (base, o.name), o.kind, o.pc, o.goal, function='Deque.' + name, path=p.decisions))
+                if p.kind == 'cut':
+                    continue
+                npaths += 1
+                if p.kind != 'return':
+                    out.append(R(base + '.no_exception', False, name, p, 'raises %r' % (p.value,)))
+                    continue
+                n, m = st.ghost['n'], st.ghost['m']
+                mn = z3.If(n < m, n, m)
+                first_diff = lambda x: z3.And(x >= 0, x < mn, SI(x) != TI(x),
+                                              z3.ForAll([j], z3.Implies(z3.And(j >= 0, j < x), SI(j) == TI(j))))
+                all_eq = z3.ForAll([j], z3.Implies(z3.And(j >= 0, j < mn), SI(j) == TI(j)))
+                if name == '__eq__':
+                    spec = z3.And(n == m, all_eq)               # equal sequences: same length, same items
+                elif name == '__ne__':
+                    spec = z3.Not(z3.And(n == m, all_eq))
+                else:
+                    spec = z3.Or(z3.Exists([d], z3.And(first_diff(d), rel(SI(d), TI(d)))), z3.And(all_eq, rel(n, m)))
+                v = p.value
+                if isinstance(v, bool):
+                    got = z3.BoolVal(v)
+                elif isinstance(v, SV) and v.ty == 'bool':
+                    got = v.t
+                elif isinstance(v, z3.BoolRef):
+                    got = v
+                else:
+                    out.append(R(base + '.returns_bool', False, name, p, 'returns %r' % (v,)))
+                    continue
+                i = st.ghost.get('iter_i')
+                extra = []
+                if i is not None:
+                    # the witness of the existential when the loop returned at step i
+                    extra = [z3.Implies(first_diff(i), z3.Exists([d], z3.And(d == i, first_diff(d))))]
+                out.append(discharge(base + '.lexicographic', 'post', p.pc, got == spec, function='Deque.' + name,
+                                     path=p.decisions, extra=extra))
+            if npaths == 0:
+                out.append(Result('C11.%s' % name, 'vacuity', 'error', detail='no paths'))
+        # non-sequence
+        def run2(st):
+            it = ctx.interp(st)
+            dq, cache, ENOVAL, maxlen = mk(ctx, st)
+            return it.call(it.getattr(dq, '__eq__'), [st.fresh_sv('x', 'int')], {})
+        core = ctx.env
+        for k, p in enumerate(explore(run2)):
+            ok = p.kind == 'return' and (p.value is NotImplemented or getattr(p.value, 'name', None) == 'NotImplemented'
+                                         or repr(p.value) == 'NotImplemented') and not calls(p)
+            out.append(R('C11.__eq__.non_sequence#%d' % k, ok, '__eq__', p, '%s %r' % (p.kind, p.value)))
+    finally:
+        ctx.hooks.pop('diskcache.persistent.Deque.__iter__', None)
+    return out
+
+
+def count_op():
+    """deque.count(value) = sum over the items of iter(deque) of [value == item]: the generator expression
+    is evaluated on a generic item (position i of the iteration contract), its filter must be exactly
+    value == S[i] and its element exactly 1, and the result must be the sum of that mapping."""
+    import ast
+    from pyvc.loops import SymSeq, MappedSeq, Fold
+    from pyvc.engine import Frame
+    ctx = cctx()
+    out = []
+    env = ctx.env
+    old = env.symbolic_comprehension
+
+    def comp(it, e, fr):
+        if len(e.generators) == 1 and len(e.generators[0].ifs) == 1 and not isinstance(e, ast.DictComp):
+            g = e.generators[0]
+            src = it.eval(g.iter, fr)
+            if isinstance(src, Obj) and not isinstance(src, SymSeq) and isinstance(getattr(src, 'cls', None), type(ctx.cls('diskcache.persistent.Deque'))):
+                src = it.call(it.getattr(src, '__iter__'), [], {})
+            if isinstance(src, SymSeq):
+                cfr = Frame(fr.func, fr.module, {}, fr, selfcls=fr.selfcls)
+                i = it.st.fresh('map_i', z3.IntSort())
+                it.st.assume(z3.And(i >= 0, i < src.n))
+                it.assign_local(g.target, src.elem(i), cfr)
+                cond = it.eval(g.ifs[0], cfr)
+                v = it.eval(e.elt, cfr)
+                m = MappedSeq(src, i, v, [], isinstance(e, ast.ListComp))
+                m.cond = cond
+                return m
+        return old(it, e, fr)
+
+    def iter_contract(it, f, a, k):
+        it.st.effect('ITERSELF')
+        return SymSeq(it.st.ghost['n'], lambda i: Opaque('other', VALOF(KEYAT(i))), tag='deque items')
+    env.symbolic_comprehension = comp
+    ctx.hooks['diskcache.persistent.Deque.__iter__'] = iter_contract
+    try:
+        def run(st):
+            it = ctx.interp(st)
+            n = st.fresh('n', z3.IntSort())
+            st.assume(n >= 0)
+            dq, cache, ENOVAL, maxlen = mk(ctx, st)
+            v = Opaque('other', st.fresh('value', OTHER))
+            st.ghost.update(n=n, value=v)
+            return it.call(it.getattr(dq, 'count'), [v], {})
+        paths = explore(run)
+        for k, p in enumerate(paths):
+            st = p.state
+            base = 'C11.count#%d' % k
+            r = p.value
+            ok = p.kind == 'return' and isinstance(r, Fold) and r.kind == 'sum' and r.extra in (0, None) and \
+                isinstance(r.mapped, MappedSeq) and getattr(r.mapped.seq, 'tag', '') == 'deque items' and r.mapped.value == 1 and \
+                len([e for e in st.trace if e[0] == 'ITERSELF']) == 1 and not calls(p)
+            out.append(R(base + '.sum_of_ones_over_the_items', ok, 'count', p, '%s %r' % (p.kind, r)))
+            if ok:
+                cond = getattr(r.mapped, 'cond', None)
+                if isinstance(cond, SV) and cond.ty == 'bool':
+                    cond = cond.t
+                elif isinstance(cond, bool):
+                    cond = z3.BoolVal(cond)
+                i = r.mapped.index
+                if not isinstance(cond, z3.BoolRef):
+                    out.append(R(base + '.counts_exactly_the_equal_items', False, 'count', p, 'filter %r' % (cond,)))
+                else:
+                    out.append(discharge(base + '.counts_exactly_the_equal_items', 'post', p.pc,
+                                         cond == EQV(st.ghost['value'].t, VALOF(KEYAT(i))), function='Deque.count', path=p.decisions))
+        if not paths:
+            out.append(Result('C11.count', 'vacuity', 'error', detail='no paths'))
+    finally:
+        env.symbolic_comprehension = old
+        ctx.hooks.pop('diskcache.persistent.Deque.__iter__', None)
     return out
